@@ -465,8 +465,11 @@ def write_replay(prop, kind, payload):
 
 
 def write_evidence(prop, ev):
-    os.makedirs(os.path.join(VERIF, "evidence"), exist_ok=True)
-    path = os.path.join(VERIF, "evidence", prop + ".json")
+    # evidence/ describes runs against /repo itself; a run against a scratch copy (VERIF_REPO set
+    # by the seeded-change / mutation tooling) must not overwrite it
+    edir = os.path.join(VERIF, "evidence") if os.path.realpath(REPO) == "/repo" else os.path.join(BUILD, "evidence-scratch")
+    os.makedirs(edir, exist_ok=True)
+    path = os.path.join(edir, prop + ".json")
     tmp = path + ".tmp%d" % os.getpid()
     with open(tmp, "w") as f:
         json.dump(ev, f, indent=1)
